@@ -2,9 +2,9 @@
 from analysis.facts import norm
 from analysis.cfg import Cfg
 from analysis.flow import DefUse, backward, find_calls, callee_is, callee_ends, op_local, op_const, static_of, field_chain, bool_branch, variant_arms, switch_info
-from analysis.table import PathWalker, describe_val
+from analysis.table import PathWalker, describe_val, outcome_on_path
 from analysis.inline import inline
-from rules.common import need
+from rules.common import need, unit, inl
 
 SEL = "net::selector::Selector"
 REC = {"net::selector::READABLE_RECORDS": "R", "net::selector::WRITABLE_RECORDS": "W"}
@@ -16,11 +16,11 @@ LOOPS = "net::EventLoops"
 
 # ------------------------------------------------------------------ C21 machine
 def _steps(f, b, w, path, conds):
-    """Translate a path into abstract steps."""
+    """Translate a path into abstract steps; returns a list of alternatives (a call whose result is returned as is
+    stands for both of its outcomes)."""
     du = w.du
-    tests = [c for c in conds if c[0] == "bool" and c[1][0] == "call" and c[1][1] == "dashmap::DashSet::contains"]
     tries = [c for c in conds if c[0] == "variant" and set(c[2]) <= {"Continue", "Break"}]
-    ti = qi = 0
+    qi = 0
     steps = []
     interest = None
     pending_os = None
@@ -32,16 +32,20 @@ def _steps(f, b, w, path, conds):
         o = norm(t.get("orig") or "")
         if c == "dashmap::DashSet::contains":
             st = REC.get(static_of(b, du, t["args"][0]))
-            if st and ti < len(tests):
-                steps.append(("test", st, tests[ti][2]))
-            ti += 1
+            val = outcome_on_path(b, du, list(path), x)
+            if st and val is not None:
+                steps.append(("test", st, val))
         elif o.startswith("net::selector::Interest::"):
             interest = {"read": "r", "write": "w", "read_and_write": "rw"}.get(o.rsplit("::", 1)[1])
         elif c in (SEL + "::register", SEL + "::reregister", SEL + "::deregister"):
-            pending_os = [c.rsplit("::", 1)[1], interest if "deregister" not in c else None, False]
+            if pending_os and pending_os[0] in ("register", "reregister") and c != SEL + "::deregister":
+                # a second OS call before the first one's result was propagated: the fallback of `a().or_else(|_| b())`
+                pending_os[2] = c.rsplit("::", 1)[1]
+            else:
+                pending_os = [c.rsplit("::", 1)[1], interest if "deregister" not in c else None, False]
         elif c == "std::result::Result::or_else" and pending_os:
-            # fallback closure: which OS call does it make?
-            for cb in f.closures_of(b):
+            # fallback closure that was not spliced: which OS call does it make?
+            for cb in f.closures_of(getattr(b, "origin", b)):
                 for (_y, tt) in cb.calls():
                     cc = norm(tt.get("callee") or "")
                     if cc in (SEL + "::register", SEL + "::reregister"):
@@ -58,9 +62,12 @@ def _steps(f, b, w, path, conds):
             st = REC.get(static_of(b, du, t["args"][0]))
             if st:
                 steps.append(("rec", st, "add" if c.endswith("insert") else "del"))
-        elif c == SEL + "::del_event" and b.npath != SEL + "::del_event":
+        elif c == SEL + "::del_event" and getattr(b, "origin", b).npath != SEL + "::del_event":
             pending_os = ["call:del_event", None, False]
-    return steps
+    if pending_os:
+        # `return self.del_event(fd)` / a tail call: the caller's outcome is the callee's
+        return [steps + [("os", pending_os[0], pending_os[1], pending_os[2], r)] for r in ("ok", "err")]
+    return [steps]
 
 
 def _os_apply(kind, interest, fallback, os):
@@ -83,12 +90,12 @@ def machine_rule(run, f, rid):
     run.rule(rid, "interest machine: after every add/del operation the OS interest equals the union of the read/write records, and records change only after the OS call succeeded (4 consistent states x 5 operations x every path)", floor=20, template="T6 + P8 typestate table")
     ops = {}
     for nm in ("add_read_event", "add_write_event", "del_event", "del_read_event", "del_write_event"):
-        b = need(run, rid, f, SEL + "::" + nm)
+        b = unit(run, rid, f, SEL + "::" + nm)
         if b is None:
             continue
         w = PathWalker(b)
         paths = w.walk(0, lambda bid, t: ("return",) if t["k"] == "return" else None)
-        ops[nm] = [(_steps(f, b, w, p, c), p) for (p, c, s) in paths]
+        ops[nm] = [(st, p) for (p, c, s) in paths for st in _steps(f, b, w, p, c)]
         run.count("paths_or_states", len(paths))
 
     def union(R, W):
